@@ -99,7 +99,10 @@ func GenString(t *rapid.T, plain bool) string {
 	return rapid.StringOfN(rapid.RuneFrom(stringRunes), 0, 8, -1).Draw(t, "str")
 }
 
-var keyPool = []string{"k", "a.b", "x/y", "50%", "sp ace", "über", "%2E", "fork0", "", "key\"q", "Z", "0", "10", "é"}
+// (the __MRO_..__ ones are parameters of the cluster job script templates;
+// keys end up in directory names, hence in those scripts)
+var keyPool = []string{"k", "a.b", "x/y", "50%", "sp ace", "über", "%2E", "fork0", "", "key\"q", "Z", "0", "10", "é",
+	"__MRO_MEM_GB__", "__MRO_THREADS__", "m.__MRO_CMD__"}
 
 func GenKey(t *rapid.T, safe bool) string {
 	if safe {
